@@ -77,10 +77,12 @@ def build_harness(race=False):
     gomod = open(os.path.join(HARN, 'go.mod.in')).read().replace('@REPO@', REPO)
     if not os.path.exists(os.path.join(HARN, 'go.mod')) or open(os.path.join(HARN, 'go.mod')).read() != gomod:
         open(os.path.join(HARN, 'go.mod'), 'w').write(gomod)
-    p = sh('go build -tags verif %s -o %s .' % ('-race' if race else '', out), cwd=HARN, env=GOENV,
+    tmp = '%s.%d.tmp' % (out, os.getpid())
+    p = sh('go build -tags verif %s -o %s .' % ('-race' if race else '', tmp), cwd=HARN, env=GOENV,
            timeout=900, check=False)
     if p.returncode != 0:
         raise RuntimeError('harness build failed against /repo working tree:\n' + p.stdout[-3000:])
+    os.replace(tmp, out)     # a harness another check is still running keeps its file
     return out
 
 
@@ -630,8 +632,26 @@ class Check:
         return rc
 
 
+class build_lock:
+    """checks may be started side by side in one tree: the builds (Coq make, extraction, harness) are serialised"""
+    def __enter__(self):
+        import fcntl
+        self.f = open(os.path.join(VERIF, '.build.lock'), 'w')
+        fcntl.flock(self.f, fcntl.LOCK_EX)
+
+    def __exit__(self, *a):
+        import fcntl
+        fcntl.flock(self.f, fcntl.LOCK_UN)
+        self.f.close()
+
+
 def std_prepare(chk, race=False):
     """build Coq, re-check the property file, extract the model, build the harness"""
+    with build_lock():
+        _std_prepare(chk, race)
+
+
+def _std_prepare(chk, race=False):
     ok, log = build_coq()
     if not ok:
         chk.violations.append(dict(kind='proof', concrete=False, what='Coq development does not build',
